@@ -113,7 +113,8 @@ pub fn main_with(find: fn(&str) -> Option<Prop>) -> i32 {
                 Err(_) => {
                     let (loc, m) = run::take_panic();
                     if prop.panic_is_violation && !loc.starts_with("src/") {
-                        let m = format!("library panicked: {} at {}", m, loc);
+                        let call = run::current_call();
+                        let m = format!("library panicked{}: {} at {}", if call.is_empty() { String::new() } else { format!(" in {}", call) }, m, loc);
                         let k = prop.known.and_then(|f| f(&case, &m));
                         ("violated", m, k)
                     } else {
